@@ -145,8 +145,13 @@ func purgeOutbox(
 		}
 
 		err = producer.Send(ctx, foreignID, eventType, headers)
+		closeErr := producer.Close()
 		if err != nil {
 			return err
+		}
+
+		if closeErr != nil {
+			return closeErr
 		}
 
 		err = recordStore.DeleteOutboxEvent(ctx, e.ID)
